@@ -6,6 +6,19 @@ use crate::layout::{is_native, storage_bits, Field, Kind, Layout};
 use crate::prng::mask;
 use std::fmt::Write;
 
+/// decimal rendering with `_` every three digits (1_234_567)
+fn underscored(v: u128) -> String {
+    let d = v.to_string();
+    let mut out = String::new();
+    for (i, c) in d.chars().enumerate() {
+        if i > 0 && (d.len() - i) % 3 == 0 {
+            out.push('_');
+        }
+        out.push(c);
+    }
+    out
+}
+
 fn base_ty(bits: u32) -> String {
     format!("u{bits}")
 }
@@ -181,9 +194,17 @@ pub fn layout_module(l: &Layout) -> String {
         Some(d) => match d.form {
             0 => format!(", default = {:#x}", d.value.0),
             1 => format!(", default: {:#x}", d.value.0),
-            _ => {
+            2 => {
                 let _ = writeln!(o, "const DEFK: u{} = {:#x};", l.storage(), d.value.0);
                 ", default = DEFK".to_string()
+            }
+            // literal with the storage type as suffix / decimal with digit separators /
+            // legacy syntax with a named constant
+            3 => format!(", default = {:#x}u{}", d.value.0, l.storage()),
+            4 => format!(", default = {}", underscored(d.value.0)),
+            _ => {
+                let _ = writeln!(o, "const DEFK: u{} = {:#x};", l.storage(), d.value.0);
+                ", default: DEFK".to_string()
             }
         },
     };
